@@ -210,6 +210,45 @@ func runC20(c *an.Ctx) {
 		}
 		return true
 	})
+	// … on every path: no return of Walk is reached without that call, and nothing that can panic on a
+	// parsed tree is consulted first (a function of package jet called with the tree before the visit)
+	{
+		wx := p.NewExplorer(walk, an.Hooks{Call: func(x *an.Explorer, call *ast.CallExpr, st *an.State) {
+			name := an.CalleeName(uinfo, call)
+			if name == "(utils.Visitor).Visit" && len(call.Args) == 2 && p.FieldKey(uinfo, call.Args[1]) == "Template.Root" {
+				st.Set("visited", "1")
+				return
+			}
+			if st.Get("visited") == "" && strings.HasPrefix(name, "jet.") {
+				st.Set("consulted", name)
+			}
+		}})
+		wx.Run(nil)
+		c.States += wx.Visited
+		always, nRet, consulted := true, 0, ""
+		for _, ex := range wx.Exits {
+			if ex.Kind != an.ExitReturn {
+				continue
+			}
+			nRet++
+			if ex.State.Get("visited") == "" {
+				always = false
+			}
+			if v := ex.State.Get("consulted"); v != "" {
+				consulted = v
+			}
+		}
+		switch {
+		case wx.Undecided != "" || nRet == 0:
+			c.Undecided("C20.walk", "utils.Walk/always", walk.Pos(), "the paths of Walk could not be explored (%s)", wx.Undecided)
+		case !always:
+			c.Bad("C20.walk", "utils.Walk/always", walk.Pos(), nil, "Walk can return without handing t.Root to the visitor: the nodes of such a template are never visited")
+		case consulted != "":
+			c.Bad("C20.walk", "utils.Walk/always", walk.Pos(), nil, "Walk consults %s on the tree before the traversal: a helper that does not know every node type panics for templates the parser accepts", consulted)
+		default:
+			c.OK("C20.walk", "utils.Walk/always", walk.Pos(), "every path through Walk hands t.Root to the visitor, and nothing else looks at the tree first")
+		}
+	}
 	c20noShare(c)
 	c20markers(c)
 	c.Check(okWalk, "C20.walk", "utils.Walk/start", walk.Pos(), "Walk hands t.Root to Visitor.Visit", "Walk does not start the traversal at t.Root through Visitor.Visit")
